@@ -216,7 +216,8 @@ def run(ctx):
 		"is compared with the model; distinct = distinct (configuration, burst, transceiver) decisions; all non-trivial")
 	ctx.assume("transceivers are tuned before they are powered on (an untuned child has no defined frequency)")
 	for i in range(ctx.scale(500, 40000)):
-		run_config(ctx, ctx.case_rng("config", i), i)
+		with common.case_watchdog(ctx, "config", {"case": i}, first = 60, second = 60):
+			run_config(ctx, ctx.case_rng("config", i), i)
 		if ctx.too_many() or ctx.time_left() < 0:
 			break
 	ctx.current_case = None
